@@ -1152,6 +1152,7 @@ pub fn run_c14(run: &mut Run) -> Stats {
 
 pub fn run_c15_serve(run: &mut Run) -> Stats {
     let tier = run.tier;
+    run.rule = "every request of the C01 space (methods replaced by GET/HEAD pairs), 1- and 2-spec range sets over boundary positions for L in {1,10,400,100000,2^64-1} and the C06 multipart range sets (with and without If-Range) is executed twice against the same entity, GET and HEAD; plus every C17 streaming_body configuration with HEAD. Oracle: same status; identical header multiset except Date/Last-Modified (equal within 2 s); for 2xx/3xx/416 the HEAD body is empty (is_end_stream at once, exact hint 0, first poll None); zero get_range calls for HEAD; streaming_body: same headers, no writer. non-trivial = distinct (request, entity) pairs".into();
     let sp = C01Space::new(tier);
     let mut outer = sp.outer();
     outer.retain(|it| it.3 == "GET");
@@ -1211,6 +1212,10 @@ pub fn run_c15_serve(run: &mut Run) -> Stats {
         pair(r, e, st, (1 << 60) + i, &prop);
     });
     total.merge(st2);
+    let mut r3 = Run::new(&run.prop, "neg_mc", tier);
+    let s3 = crate::neg_mc::run_c17(&mut r3);
+    run.extra.insert("streaming_body_head_configs".into(), json!(s3.evaluations));
+    total.merge(s3);
     total
 }
 
@@ -1325,6 +1330,13 @@ pub fn run_c12_serve(run: &mut Run) -> Stats {
     let mut s3 = Stats::new();
     body_from_cases(&run.prop, &mut s3);
     st.merge(s3);
+    // streaming bodies: the C08 / C09 / C11 history sweeps with the hint monitor
+    let s4 = crate::stream_mc::run_monitor(&run.prop, tier, 2);
+    run.extra.insert("serve_side_executions".into(), json!(st.evaluations));
+    run.extra.insert("streaming_histories".into(), json!(s4.evaluations));
+    st.merge(s4);
+    run.rule = "monitor (size_hint lower/upper, is_end_stream sampled before every poll) on every execution of: the C01 space (all requests x chunkings), the C06 multipart space, every Body::from / Body::empty conversion over lengths {0,1,5}, and the C08/C09/C11 streaming history sweeps (raw and gzip writers, with abort and body drop). Retrospective oracle per sample: lower <= bytes delivered afterwards <= upper on a clean end; exact hint for serve / Body::from bodies; is_end_stream true => no later bytes and no later error. non-trivial = distinct (case, chunking) or (config, history)".into();
+    run.bounds = json!({"serve": "as C01 and C06", "streaming": "as C08/C11 one level shallower"});
     st
 }
 
@@ -1339,5 +1351,11 @@ pub fn run_c20_serve(run: &mut Run) -> Stats {
     let mut s3 = Stats::new();
     body_from_cases(&run.prop, &mut s3);
     st.merge(s3);
+    let s4 = crate::stream_mc::run_monitor(&run.prop, tier, 4);
+    run.extra.insert("serve_side_executions".into(), json!(st.evaluations));
+    run.extra.insert("streaming_histories".into(), json!(s4.evaluations));
+    st.merge(s4);
+    run.rule = "every execution of the fault space of C07 (all shapes x fault kinds x positions), the C06 multipart space, the C02 single-range space, all Body::from conversions and the C08/C09/C11 streaming history sweeps is continued for 4 more polls after its first terminal event (clean end, entity error, too-short, too-long, abort); oracle: none of them panics (debug assertions on) or yields bytes. The counters list the (shape : fault : terminal) cells reached. non-trivial = distinct (shape, fault script vector) or (config, history)".into();
+    run.assumptions.push("entity streams stay finished once finished or failed (fused scripts; Err is the last event of a script) -- the premise in the statement".into());
     st
 }
